@@ -62,6 +62,8 @@ class Inter:
         self._okpaths = {}
         self._feas_depth = 0
         self._ft_depth = 0
+        self.expand_pure = False     # opt-in: split caller paths over the success paths of pure multi-path helpers
+        self._expanding = set()
 
     # ---------------------------------------------------------------- paths
     def paths(self, fn):
@@ -71,8 +73,116 @@ class Inter:
         r = self._okpaths.get(fn.key)
         if r is None:
             r = [p for p in self.ev.paths(fn) if p.kind() in ("ok", "value", "dep")]
+            if self.expand_pure and fn.key not in self._expanding:
+                self._expanding.add(fn.key)
+                try:
+                    r = self._expand_pure_helpers(fn, r)
+                finally:
+                    self._expanding.discard(fn.key)
             self._okpaths[fn.key] = r
         return r
+
+    # ---------------------------------------------------------------- pure multi-path helpers
+    MAX_SPLIT = 24
+
+    def _split_candidates(self, fn, p):
+        """call values on path p whose callee is a pure workspace helper with several success paths at this site"""
+        out = []
+        seen = set()
+        for e in p.events:
+            t = e.target
+            if t is None or t.key == fn.key or is_integer_fn(t.pretty) or tag(e.result) != "call" or e.result in seen:
+                continue
+            if not self.ev.pure(t):
+                continue
+            try:
+                oks = self.ok_paths_at(t, self.param_map(t, e.args))
+            except P.TooManyPaths:
+                continue
+            if len(oks) < 2 or len(oks) > 6 or any(q.exit != "return" for q in oks):
+                continue
+            seen.add(e.result)
+            out.append((e, oks))
+        return out
+
+    def _subst_path(self, p, mapping, extra_conds, after_event):
+        """copy of path p with `mapping` applied to every tree and extra_conds inserted after the given event;
+        None when a branch condition becomes false"""
+        memo = {}
+        sub = lambda v: sym.subst(v, mapping, memo) if v is not None else None
+        conds = []
+        items = []
+
+        def add_cond(c):
+            atom, outcome, bb, ln = c
+            a2 = sub(atom)
+            r = self.fold_cond(a2, outcome) if a2 != atom else None
+            if r is True:
+                return True
+            if r is False:
+                return False
+            c2 = (a2, outcome, bb, ln)
+            conds.append(c2)
+            items.append(("c", c2))
+            return True
+        events = []
+        for kind, it in p.items:
+            if kind == "c":
+                if not add_cond(it):
+                    return None
+            else:
+                e = it
+                if e is after_event:
+                    e2 = e
+                else:
+                    e2 = P.Event(e.fn, e.bb, e.line, e.callee, e.name, [sub(a) for a in e.args], [sub(a) for a in e.raw], sub(e.result), e.target, e.self_ty)
+                    e2.idx = e.idx
+                events.append(e2)
+                items.append(("e", e2))
+                if e is after_event:
+                    for c in extra_conds:
+                        if not add_cond(c):
+                            return None
+        # contradictory facts about the same atom
+        seen = {}
+        for (a, o, _b, _l) in conds:
+            if a in seen and seen[a] != o and o in (True, False) and seen[a] in (True, False):
+                return None
+            seen.setdefault(a, o)
+        ptr_out = {sub(k): sub(v) for k, v in p.ptr_out.items()}
+        return P.Path(p.fn, conds, events, sub(p.ret), p.exit, ptr_out, p.blocks, items)
+
+    def _expand_pure_helpers(self, fn, paths):
+        out = []
+        for p in paths:
+            work = [p]
+            try:
+                cands = self._split_candidates(fn, p)
+            except Exception:
+                cands = []
+            for (e, oks) in cands:
+                if len(work) * len(oks) > self.MAX_SPLIT:
+                    break
+                m_e = self.param_map(e.target, e.args)
+                nxt = []
+                for q in work:
+                    # the call may have been rewritten by an earlier split: locate its event again by index
+                    ev_q = next((x for x in q.events if x.idx == e.idx and x.target is e.target), None)
+                    if ev_q is None or tag(ev_q.result) != "call":
+                        nxt.append(q)
+                        continue
+                    m_q = self.param_map(e.target, ev_q.args)
+                    for cp in oks:
+                        if not self.feasible(cp, m_q):
+                            continue
+                        ret = sym.subst(cp.ret, m_q)
+                        extra = [(sym.subst(a, m_q), o, bb, ln) for (a, o, bb, ln) in cp.conds]
+                        q2 = self._subst_path(q, {ev_q.result: ret}, extra, ev_q)
+                        if q2 is not None:
+                            nxt.append(q2)
+                work = nxt or work
+            out.extend(work)
+        return out
 
     def call_target(self, v):
         """Fn of a workspace call value, else None"""
